@@ -54,6 +54,12 @@ fn main() {
         }
         ("C01", None) => checks::c01::run(&ctx),
         ("C01", Some(r)) => checks::c01::replay(&ctx, &r["case"]),
+        ("C02", None) => checks::c02::run(&ctx),
+        ("C02", Some(r)) => checks::c02::replay(&ctx, &r["case"]),
+        ("C02DBG", _) => {
+            checks::c02::debug(&args);
+            std::process::exit(0);
+        }
         ("C05", None) => checks::cfgstate::run_c05(&ctx),
         ("C06", None) => checks::cfgstate::run_c06(&ctx),
         ("C07", None) => checks::cfgstate::run_c07a(&ctx),
